@@ -15,7 +15,7 @@ Open Scope Z_scope.
 Lemma bit_eqb_spec (a b : bit) : reflect (a = b) (bit_eqb a b).
 Proof.
   destruct a as [x i], b as [y j]. unfold bit_eqb. cbn [fst snd].
-  destruct (String.eqb_spec x y), (Nat.eqb_spec i j); cbn [andb]; constructor;
+  destruct (Nat.eqb_spec i j); [destruct (String.eqb_spec x y)|]; constructor;
     congruence.
 Qed.
 
